@@ -146,6 +146,35 @@ CHECKS = [
         "note": "Trusts numpy.linalg.slogdet/solve and the finite-difference error bound (1e-8 relative).",
     },
     {
+        "property_id": "C13",
+        "level": "exploration",
+        "technique": "property-based testing (Hypothesis) over run configurations with an independent per-process "
+                     "log written by picklable wrapper transitions; outputs rebuilt from the log and compared row by "
+                     "row; storage modes compared differentially",
+        "text": "Real sample_chains runs (sequential and process pools) over generated chain counts, stage "
+                "structures, trace-function sets, adapters, stagers, storage modes, process counts incl. None, "
+                "initial-state styles, all five sampler classes and seven generator types; traces, statistics "
+                "(value and declared dtype), lengths and final states must equal what the independent log says each "
+                "chain did, and in-memory / memmap runs must agree. Sampling; small iteration counts.",
+        "design_ref": "DESIGN.md section 2, C13",
+        "note": "Stage lengths are taken from the public stager API (checked by C16); a watchdog turns a hung pool "
+                "into an inconclusive result; one known finding (adapter initialisation failure) is listed.",
+    },
+    {
+        "property_id": "C17",
+        "level": "exploration",
+        "technique": "property-based testing (Hypothesis): dual-averaging recursion re-implemented from the paper; "
+                     "pooled (co)variance in exact rational arithmetic; metamorphic re-partition/re-order; step-size "
+                     "search crossing re-evaluated with a fresh integrator",
+        "text": "Adapter updates and finalisation are driven directly with generated acceptance sequences and "
+                "position histories split over chains in generated ways (incl. empty and singleton chains, offsets up "
+                "to 1e8 spreads); results must equal independent references, be partition/order invariant and refresh "
+                "momenta; the initial search must return a power of two at which |dH| crosses log 2.",
+        "design_ref": "DESIGN.md section 2, C17",
+        "note": "Data whose conditioning makes any one-pass floating-point estimator meaningless are discarded "
+                "(counted); dual-averaging sequences whose exact step size leaves the double range are discarded.",
+    },
+    {
         "property_id": "C18",
         "level": "exploration",
         "technique": "model-based stateful testing with counting probes: harness-side model of what each state's "
